@@ -244,6 +244,9 @@ def run(ctx: Ctx) -> None:
     ctx.call(T.t_o1, "5t/T.O1")
     ctx.call(bounded_wait, "6")
     ctx.call(creation_ids, "7")
+    from . import graphrules as GR
+
+    ctx.call(GR.identity_forms, "8")
 
 
 NODE = "cartgraph/node.py"
